@@ -4,8 +4,9 @@
  * linked).  Every descriptor the library sees is a fake one; nothing here touches the real
  * kernel.  The wrappers also write the observation log (fk_log).
  *
- * errno hygiene: poll and signal are allowed to leave any value in errno when they succeed, and the
- * scripted ones do: each successful poll() / signal() leaves the next value of the rotation
+ * errno hygiene: every system call is allowed to leave any value in errno when it succeeds, and the
+ * scripted ones do: each successful poll() / signal() / recv() / send() / accept() / socket() /
+ * fcntl() / connect() / getsockopt() / setsockopt() / close() leaves the next value of the rotation
  * 0, EAGAIN, EBADF, EINTR, EPIPE behind.  The value on record when callback_buf of network_write.c
  * is entered (and after each of its signal() calls in the -DPOSIXFAIL_MSG_NOSIGNAL configuration)
  * is therefore different from the one the scripted send() sets, so code that classifies a failed
@@ -310,6 +311,7 @@ int __wrap_socket(int domain, int type, int protocol)
 	fd = fk_newsock(addr);
 	if (fd < 0) { fk_log("sockfail:a%d", addr); errno = EMFILE; return -1; }
 	fk_log("sock%d:a%d", fk_sock(fd)->ord, addr);
+	fk_errno_rotate();
 	return fd;
 }
 
@@ -319,6 +321,7 @@ static int fk_fcntl(int fd, int cmd)
 	fk_activity++;
 	if (s == NULL || !s->open) { errno = EBADF; return -1; }
 	if (cmd == F_SETFL && fk_outcome_of(s->addr) == 'N') { fk_log("fcntlfail%d", s->ord); errno = EPERM; return -1; }
+	fk_errno_rotate();
 	return 0;
 }
 int __wrap_fcntl(int fd, int cmd, ...) { return fk_fcntl(fd, cmd); }
@@ -343,7 +346,7 @@ int __wrap_connect(int fd, const struct sockaddr * sa, socklen_t len)
 	default: e = ENETUNREACH; break;
 	}
 	if (s->later != L_NONE) fk_cur = fd;
-	if (rc == 0) { fk_log("conn%d:a%d=0", s->ord, s->addr); return 0; }
+	if (rc == 0) { fk_log("conn%d:a%d=0", s->ord, s->addr); fk_errno_rotate(); return 0; }
 	{
 		int i; const char * nm = "E?";
 		for (i = 0; i < FK_NERR; i++) if (fk_errval[i] == e) { nm = fk_errname[i]; break; }
@@ -363,12 +366,14 @@ int __wrap_getsockopt(int fd, int level, int optname, void * optval, socklen_t *
 	if (e) for (i = 0; i < FK_NERR; i++) if (fk_errval[i] == e) { nm = fk_errname[i]; break; }
 	fk_log("gso%d=%s", s->ord, nm);
 	if (optval && optlen && *optlen >= sizeof(int)) { memcpy(optval, &e, sizeof(int)); *optlen = sizeof(int); }
+	fk_errno_rotate();
 	return 0;
 }
 
 int __wrap_setsockopt(int fd, int level, int optname, const void * optval, socklen_t optlen)
 {
 	(void)fd; (void)level; (void)optname; (void)optval; (void)optlen;
+	fk_errno_rotate();
 	return 0;
 }
 
@@ -381,6 +386,7 @@ int __wrap_close(int fd)
 	s->open = 0;
 	if (fk_cur == fd) fk_cur = -1;
 	fk_log("close%d", s->ord);
+	fk_errno_rotate();
 	return 0;
 }
 
@@ -394,6 +400,7 @@ int __wrap_accept(int fd, struct sockaddr * sa, socklen_t * len)
 	if (e.kind == K_CONN) {
 		int nfd = fk_newsock(-1);
 		fk_log("A%d:%d=s%d", fd, id, fk_sock(nfd)->ord);
+		fk_errno_rotate();
 		return nfd;
 	}
 	if (e.kind == K_ERR) { fk_log("A%d:%d=%s", fd, id, fk_errname[e.err]); errno = fk_errval[e.err]; return -1; }
@@ -413,6 +420,7 @@ ssize_t __wrap_recv(int fd, void * buf, size_t len, int flags)
 		fk_fill(buf, fd, e->pos, n);
 		if (n == e->len) q->head++; else { e->pos += n; e->len -= n; }
 		fk_log("R%d:%s:%zu=%zu", fd, wh, len, n);
+		fk_errno_rotate();
 		return (ssize_t)n;
 	}
 	q->head++;
@@ -437,6 +445,7 @@ ssize_t __wrap_send(int fd, const void * buf, size_t len, int flags)
 			memcpy(w->p + w->n, buf, n); w->n += n;
 		}
 		fk_log("S%d:%s:%zu=%zu", fd, wh, len, n);
+		fk_errno_rotate();
 		return (ssize_t)n;
 	}
 	if (e->kind == K_ERR) { fk_log("S%d:%s:%zu=%s", fd, wh, len, fk_errname[e->err]); errno = fk_errval[e->err]; return -1; }
